@@ -9,15 +9,21 @@
        ok          roots for every root of the equation (n + zero_roots = effective degree, lastphase != no_phase)
        solve-err   error flag set with a non-empty message                (both fine)
        sanitizer / crash / timeout-hard / bad-result                      => VIOLATION with input + options as replay
-    Budget T: every solve first runs with a cap of 20 s (thorough: 60 s); what does not end is re-run with the hard cap
-    HARD (quick 60 s, thorough 900 s) with little contention; not ending within HARD is a violation `timeout-hard`
-    (this is how a hang is caught).  Soft budget
-    T(class) = max(20 s, 30 x median wall of the class (algorithm, goal, digits bucket, degree bucket)): runs above it
-    but below HARD are counted `slow` and listed in the evidence, never reported.
+    Budget T (stated in the evidence): CPU seconds of the solve process, which with the single worker thread (-j 1) of
+    the main sweep is the solve's own work and does not depend on the load of the machine; 1.2 GB resident memory;
+    a wall-clock backstop for deadlocks.  First pass: 20 CPU-s (thorough 60).  What exceeds it is re-run ALONE, one
+    after the other, with the hard cap (quick 45 CPU-s, thorough 900): only exceeding the hard cap alone (or the memory
+    cap) is a violation `timeout-hard` -- this is how a hang is caught.  Soft budget max(20 s, 30 x median CPU time of
+    the class (algorithm, goal, digits bucket, degree bucket)): runs above it are counted `slow`, never reported.
+    Threads: the main sweep is single-threaded (reproducible); a separate small group runs with -j 2..8 and is judged
+    only by fail / no fail per (input class, options).
     Search sets whose boundary carries a root (or whose roots are not known exactly) are excluded from the
     termination clause: a timeout there is counted `excluded-timeout`.
-(3) Tie: a subset runs with the event trace (-T); the trace (phases, packets, precision changes) must be accepted by
-    the extracted skeleton (bin/total) and stay within the proved bound B.
+(3) Tie: about a third of the small solves run with the event trace (-T, caps -P 300 -W 16384 so that the unary
+    acceptor can evaluate the bound); every trace (phases, packets, precision changes, improve steps; iterations and
+    precision raises of the secular loop) must be accepted by the extracted acceptors check_u / check_s (bin/total,
+    theorems C03_trace_accept_sound_*): it is then the trace of a run of the skeleton, within the proved bound for
+    the classic driver.  A rejected trace is a correspondence violation.
 """
 import os, re, json, time, subprocess, collections, statistics, itertools
 from fractions import Fraction as Fr
@@ -85,6 +91,7 @@ def opts_of(row):
     if row.get("D", "n") != "n": o += ["-D", row["D"]]
     if row.get("O") is not None: o += ["-O", row["O"]]
     if row.get("P") is not None: o += ["-P", str(row["P"])]
+    if row.get("W") is not None: o += ["-W", str(row["W"])]
     return o
 
 
@@ -284,7 +291,20 @@ def classify(job, r):
     try:
         res = S.parse_export(out)
     except Exception as ex:
-        return "bad-result", "unparsable-export"
+        # lib/solve.py converts every exported number exactly; values with astronomically large exponents (e.g. the
+        # never-assigned multiprecision fields of a crude-mode solve) make it give up.  C03 only needs the counts.
+        job["light"] = True
+        if re.search(r"^SOLVE-ERR msg=\S", out, re.M): return "solve-err", re.search(r"^SOLVE-ERR msg=(.*)$", out, re.M).group(1)[:200]
+        mm = re.search(r"^META degree=\d+ n=(\d+) zero_roots=(\d+) over_max=\d+ lastphase=(\d+)", out, re.M)
+        pd = re.search(r"^PARSED degree=(\d+)", out, re.M)
+        if not mm or "OUTPUT-END" not in out: return "bad-result", "no-META-no-error"
+        n, zr, lp = int(mm.group(1)), int(mm.group(2)), int(mm.group(3))
+        eff = job["case"]["eff_degree"]
+        if eff is None and pd: eff = int(pd.group(1))
+        if n + zr != eff: return "bad-result", "root-count:%s" % ("fewer" if n + zr < eff else "more")
+        if lp == 0 and n > 0: return "bad-result", "lastphase-no_phase"
+        if len(re.findall(r"^ACCA ", out, re.M)) != n + zr or len(re.findall(r"^ACCD ", out, re.M)) != n: return "bad-result", "accessor-count"
+        return "ok", ""
     job["res"] = res
     if res.kind == "parse-err": return "parse-err", res.msg[:200]
     if res.kind == "solve-err":
@@ -458,6 +478,16 @@ def run(ctx):
         for sset in ("r", "u", "i", "R", "I"):
             for a in ("u", "s"):
                 add(onb[0], dict(base, a=a, S=sset), "on-boundary")
+    # (F) the precision cap at work: roots 2^-40 apart / high multiplicity with a small mpwp_max (-W): the classic driver has
+    #     to stop at the cap (over_max), the trace shows the doublings
+    if not ctx.replay:
+        tight = G.from_roots_case("tight40", "clustered-2^-40", [(Fr(1), Fr(0)), (Fr(1) + Fr(1, 1 << 40), Fr(0)), (Fr(-2), Fr(1))], rng)
+        tight = _mk(tight["name"], tight["cls"], tight["text"], 3, tight["roots"])
+        m5 = [x for x in specials if x["name"] == "mult-5"][0]
+        for c in (tight, m5):
+            for row in (dict(base, a="u", G="i", W=128), dict(base, a="u", G="a", o="200", W=256), dict(base, a="u", G="i", W=64, t="d"),
+                        dict(base, a="s", G="i", W=128), dict(base, a="s", G="a", o="200", W=256)):
+                add(c, row, "precision-cap")
     # every solve of the main sweep runs with ONE worker thread: reproducible runs (the thread pool's scheduling
     # is what made sanitizer reports come and go); threads are exercised by the separate group below
     for j in jobs:
@@ -466,10 +496,11 @@ def run(ctx):
     # trace subset (tie): small inputs; traced solves get small caps (-P 300, -W 16384) so that the acceptor, which
     # counts in unary, can evaluate the proved bound
     for j in jobs:
-        j["trace"] = (j["case"]["eff_degree"] or 0) <= 12 and rng.random() < ctx.pick(0.4, 0.3) and j["why"] != "replay"
+        j["trace"] = (j["case"]["eff_degree"] or 0) <= 12 and (rng.random() < ctx.pick(0.4, 0.3) or j["why"] == "precision-cap") and j["why"] != "replay"
         if j["trace"]:
             if j["row"].get("P") is None: j["row"]["P"] = 300
-            j["opts"] = opts_of(j["row"]) + ["-W", "16384", "-T"]
+            if j["row"].get("W") is None: j["row"]["W"] = 16384
+            j["opts"] = opts_of(j["row"]) + ["-T"]
     # multi-threaded group: fixed configurations with -j 2..8; verdict = did the run fail or not, keyed by input class
     # and options (never by the sanitizer's report site, which depends on the interleaving)
     mt_jobs = []
@@ -504,20 +535,21 @@ def run(ctx):
     ctx.log("first pass done (%d solves, cap %d CPU-s each)" % (len(alljobs), T1))
     # second pass: what exceeded the first-pass CPU or wall budget is re-run ALONE, one after the other, with the hard
     # cap; only a run that exceeds the hard cap alone is a violation.  (A run stopped by the memory cap is final: memory
-    # does not depend on the load.)  One representative per signature group is re-run, the other members of a group
-    # share its verdict -- they differ in switches that do not matter for termination.
+    # does not depend on the load.)  One representative per signature group is re-run first; if it is over budget again the other
+    # members of the group (same switches that matter for termination) share that verdict, otherwise each is re-run too.
     late = [(i, j) for i, j in enumerate(alljobs) if j["r"]["timeout"] and not j["excluded"] and not j["r"]["mem"]]
     groups = collections.defaultdict(list)
     for i, j in late: groups[tgroup(j)].append((i, j))
     reps = [groups[g][0] for g in sorted(groups)]
     for ij in reps:
         go(ij, HARD, 6 * HARD + 60)
-    for g, members in groups.items():
-        rep = members[0][1]
-        for _, j in members[1:]:
-            j["inherited"] = True
-            if not rep["r"]["timeout"]: j["r"] = dict(rep["r"])
-    ctx.log("second pass done (%d late in %d groups, re-run alone with cap %d CPU-s)" % (len(late), len(reps), HARD))
+    nrer = len(reps)
+    for g in sorted(groups):
+        members = groups[g]; rep = members[0][1]
+        for ij in members[1:]:
+            if rep["r"]["timeout"]: ij[1]["inherited"] = True          # same switches, same verdict: still over budget
+            else: go(ij, HARD, 6 * HARD + 60); nrer += 1                # the representative ended: judge every member by its own run
+    ctx.log("second pass done (%d late in %d groups, %d re-run alone with cap %d CPU-s)" % (len(late), len(reps), nrer, HARD))
 
     stats = collections.Counter(); hist_cls = collections.Counter(); hist_opt = collections.Counter()
     walls = collections.defaultdict(list)
@@ -609,7 +641,7 @@ def run(ctx):
            "budget": {"unit": "CPU seconds of the solve process (single worker thread), independent of machine load; wall-clock only as a backstop (8 x cap + 30 s)", "memory_cap_MB": RSS_CAP_KB // 1000, "stopped_by_memory_cap": sum(1 for j in alljobs if j["r"].get("mem")), "hard_cap_cpu_s": HARD, "first_pass_cap_cpu_s": T1, "soft": "max(%g s, 30 x median CPU time of (alg, goal, digits, degree bucket))" % FLOOR,
                       "class_medians": {"/".join(k): round(statistics.median(v), 3) for k, v in sorted(walls.items())[:40]},
                       "max_cpu_s": round(max([j["r"]["cpu"] for j in alljobs] or [0]), 2), "slow": slow[:20]},
-           "pairwise_rows": 0 if ctx.replay else len(rows),
+           "pairwise_rows": 0 if ctx.replay else len(rows), "exports_read_by_the_light_parser": sum(1 for j in alljobs if j.get("light")),
            "trace_tie": {"traced_solves": len(tlines), "verdicts": dict(tstats), "longest_trace_events": tmax, "skeleton_steps_total": tsteps,
                          "closest_to_bound": ({"steps": closest[1], "bound": closest[2]} if closest else None)},
            "multithreaded_group": dict(mtstats), "programs": len(alljobs), "disagreements_checked": sum(v for k, v in tstats.items() if k.startswith("rejected")),
